@@ -22,7 +22,7 @@ start / end events recorded by the service implementation and the state object:
 * ``close-twice``            the close hook of one session ran more than once;
 * ``close-during-dispatch``  a close hook started while another request was between enter and exit on that session
                              (a request's own ``ctx.close_session()`` ends its dispatch and is not counted);
-* ``dispatch-after-close``   a request entered dispatch (resume) on a session whose close hook had started;
+* ``dispatch-after-close``   a request entered dispatch (resume, or right after opening it) on a session whose close hook had started;
 * ``close-missing``          the session left the registry but its close hook never ran;
 * ``deadlock``               the scheduler found every thread blocked.
 
@@ -261,6 +261,14 @@ def run(ctx: RunCtx) -> None:
         seq, kind = e[0], e[1]
         if kind == "enter":
             label, tg, how, th = e[2], e[3], e[4], e[5]
+            if how == "open" and label in cstart:
+                # the opening request itself: its session was closed (shutdown / reaper / expiry) between becoming visible in
+                # the registry and the request taking the session lock - it now runs against a closed state
+                c0 = cstart[label][0]
+                ch.probe("open-dispatch-after-close")
+                report("dispatch-after-close", f"closer={_short(c0[1])},how=open",
+                       f"request {tg} ({th}) went on dispatching on the session {label} it had just opened (event {seq}) although the "
+                       f"session's close hook had already started at event {c0[0]} (called via {c0[1]} on thread {c0[2]})")
             if how == "resume" and label in cstart:
                 c0 = cstart[label][0]
                 during = label not in cend
